@@ -13,24 +13,24 @@ import (
 // C05: replies go back along the path of their request.
 
 type c5Req struct {
-	n      int
-	tag    string
-	pipe   *MsgPipe
-	bt     []byte // backtrace as injected
-	depth  int
-	at     time.Duration
-	taken  bool // delivered to the application
-	sent   bool // the application replied
-	sendAt time.Duration
+	n              int
+	tag            string
+	pipe           *MsgPipe
+	bt             []byte // backtrace as injected
+	depth          int
+	at             time.Duration
+	taken          bool // delivered to the application
+	sent           bool // the application replied
+	sendAt         time.Duration
 	pipeOpenAtSend bool
 }
 
 type c5Ctx struct {
-	idx     int
-	c       mangos.Context
-	pending *c5Req
+	idx       int
+	c         mangos.Context
+	pending   *c5Req
 	maybeNone bool // respondent-style: a failed Recv may have dropped pending
-	rawHdr  []byte
+	rawHdr    []byte
 }
 
 func c05Run(w *W) {
